@@ -19,7 +19,7 @@ that is edited in place in between (keys "<function>|same-object-after-edit|valu
 "<function>|second-call-without-edit|differs-from-first-call").
 """
 import math
-from itertools import combinations
+from itertools import combinations, islice
 
 import networkx as nx
 
@@ -65,8 +65,8 @@ INF = float("inf")
 
 def plan(tier):
     if tier == "quick":
-        return {"random": 4500, "directed": 1200, "sequence": 1000}
-    return {"random": 320000, "directed": 64000, "sequence": 64000}
+        return {"random": 4500, "directed": 1200, "sequence": 1000, "scale": 34}
+    return {"random": 320000, "directed": 64000, "sequence": 64000, "scale": 1020}
 
 
 def floors(tier):
@@ -285,7 +285,7 @@ class Ctx:
         return False
 
 
-def check_components(c, part, trig):
+def check_components(c, part, trig, sample=None):
     mon, H = c.mon, c.H
     nset = set(c.nodes)
     # connected_components: a partition of the node set, equal to the bipartite components
@@ -327,7 +327,7 @@ def check_components(c, part, trig):
         c.fail("largest_connected_component", trig, "not-of-maximal-size", f"returned a component of size {len(got)}; maximal size is {max(len(b) for b in part)}")
     # node_connected_component
     where = {n: b for b in part for n in b}
-    for n in c.nodes:
+    for n in (c.nodes if sample is None else sample):
         mon.note("fn:node_connected_component")
         mon.ev()
         got = xgi.node_connected_component(H, n)
@@ -337,14 +337,19 @@ def check_components(c, part, trig):
     return True
 
 
-def check_shortest_paths(c, G, part, trig):
+def check_shortest_paths(c, G, part, trig, sources=None):
+    """sources=None: every node as a source and the full matrix; otherwise (large inputs) only the given sources and the
+    first two items of the shortest_path_length generator (the hand-rolled Dijkstra is quadratic per source)."""
     mon, H = c.mon, c.H
     where = {n: b for b in part for n in b}
     nset = set(c.nodes)
-    exp = {}
-    for u in c.nodes:
-        d = nx.single_source_shortest_path_length(G, u)
-        exp[u] = {v: (d[v] if v in d else INF) for v in c.nodes}
+    class _Exp(dict):  # BFS distances in the clique expansion, computed per source on demand
+        def __missing__(self, u):
+            d = nx.single_source_shortest_path_length(G, u)
+            self[u] = {v: d.get(v, INF) for v in c.nodes}
+            return self[u]
+
+    exp = _Exp()
 
     def compare(fn, u, got, full=None):
         if not isinstance(got, dict) or set(got) != nset:
@@ -366,14 +371,34 @@ def check_shortest_paths(c, G, part, trig):
             return c.fail(fn, trig, clause, f"d({u!r},{v!r}) = {g!r}, BFS distance in the clique expansion is {e!r}")
         return True
 
-    for u in c.nodes:
+    results = {}
+    for u in (c.nodes if sources is None else sources):
         mon.note("fn:single_source_shortest_path_length")
         mon.ev()
-        got = xgi.single_source_shortest_path_length(H, u)
+        got = results[u] = xgi.single_source_shortest_path_length(H, u)
         if not compare("single_source_shortest_path_length", u, got):
             return False  # shortest_path_length is built on it
     mon.note("fn:shortest_path_length")
     mon.ev()
+    if sources is not None:
+        pairs = list(islice(xgi.shortest_path_length(H), 2))
+        srcs = [p[0] for p in pairs]
+        if len(srcs) != min(2, len(c.nodes)) or len(set(srcs)) != len(srcs) or not set(srcs) <= nset:
+            return c.fail("shortest_path_length", trig, "sources-not-the-node-set", f"first sources {srcs!r} are not distinct nodes")
+        full = dict(pairs)
+        for u in srcs:
+            if not compare("shortest_path_length", u, full[u], full):
+                return False
+        for u in sources:  # symmetry / infinity pattern among the sampled sources
+            du = results[u]
+            for v in sources:
+                if exp[v][u] != du[v]:
+                    return c.fail("single_source_shortest_path_length", trig, "asymmetric", f"d({u!r},{v!r})={du[v]!r} but BFS d({v!r},{u!r})={exp[v][u]!r}")
+            far = [x for x in du.values() if not math.isinf(x)]
+            mon.note("sp:inf-pairs", len(du) - len(far))
+            mon.note("sp:pairs-at-distance>=3", sum(1 for x in far if x >= 3))
+            mon.note("scale:pairs-at-distance>=10", sum(1 for x in far if x >= 10))
+        return True
     pairs = list(xgi.shortest_path_length(H))
     srcs = [p[0] for p in pairs]
     if sorted(map(repr, srcs)) != sorted(map(repr, c.nodes)) or set(srcs) != nset:
@@ -440,16 +465,20 @@ def check_to_graph(c, G, trig):
     return True
 
 
-def check_line_graph(c, rng, has_empty):
+def check_line_graph(c, rng, has_empty, svals=None):
     mon, H = c.mon, c.H
     mem = c.members
     eids = list(mem)
-    svals = [1, 2, 3, 4]
-    if not has_empty and rng.random() < 0.3:
-        svals += [0, 6]
+    if svals is None:
+        svals = [1, 2, 3, 4]
+        if not has_empty and rng.random() < 0.3:
+            svals += [0, 6]
+    maxsize = max((len(m) for m in mem.values()), default=0)
     for s in svals:
         for w in WEIGHTS:
             opt = f"s={s},weights={w.lower() if w else None}"
+            if s > maxsize:
+                mon.note("line:s>largest-edge")
             mon.note("fn:to_line_graph")
             mon.ev()
             L = xgi.to_line_graph(H, s=s, weights=w)
@@ -599,7 +628,21 @@ def evaluate(mon, net, how, rng, phase=None, fresh=True):
     G = clique_expansion(c.nodes, mem)
     has_empty = any(len(m) == 0 for m in mem.values())
     trig = "edgeless" if G.number_of_edges() == 0 else ("connected" if len(part) == 1 else "disconnected")
+    n = len(c.nodes)
+    if n > 10:  # size class: part of the trigger class of a key (size-dependent code paths)
+        trig += ",n>250" if n > 250 else (",n>60" if n > 60 else ",n>10")
+    sample = svals = None
+    if n > SAMPLED_ABOVE:  # large inputs: a few sources instead of all pairs, s in {1, 2, larger than every edge}
+        iso = [x for x in c.nodes if G.degree(x) == 0]
+        big = max(part, key=len)
+        ecc = nx.single_source_shortest_path_length(G, _srt(big)[0])
+        sample = list(dict.fromkeys(iso[:1] + [max(ecc, key=ecc.get), max(c.nodes, key=G.degree)] + rng.sample(c.nodes, 2)))
+        svals = [1, 2, max((len(m) for m in mem.values()), default=0) + 1]
     if fresh:  # input classes actually produced
+        if n <= 2:
+            mon.note("in:n<=2")
+        if not mem:
+            mon.note("in:no-edges")
         mon.note("in:connected" if len(part) == 1 else "in:disconnected")
         covered = set().union(*mem.values()) if mem else set()
         if set(c.nodes) - covered:
@@ -612,11 +655,11 @@ def evaluate(mon, net, how, rng, phase=None, fresh=True):
             mon.note("in:nested-edges")
         if has_empty:
             mon.note("in:empty-edge")
-    check_components(c, part, trig)
-    check_shortest_paths(c, G, part, trig)
+    check_components(c, part, trig, sample)
+    check_shortest_paths(c, G, part, trig, sample)
     check_clustering(c, G, trig)
     check_to_graph(c, G, trig)
-    check_line_graph(c, rng, has_empty)
+    check_line_graph(c, rng, has_empty, svals)
     check_bipartite(c, H, "Hypergraph")
     if not has_empty:
         check_encapsulation(c)
@@ -753,7 +796,127 @@ def run_sequence(mon, rng):
     mon.sample(how)
 
 
+# ---------------------------------------------------------------------------------
+# the size regime: medium (11-60 nodes, everything evaluated) and large (61-600 nodes, sampled sources)
+# ---------------------------------------------------------------------------------
+SAMPLED_ABOVE = 60
+SCALE_SIZES = (11, 16, 24, 33, 47, 60, 85, 120, 170, 249, 250, 251, 260, 300, 380, 470, 600)  # 17 sizes: n = SCALE_SIZES[idx % 17]
+MAX_SCALE_EDGES = 400
+
+
+def build_scaled(rng, idx):
+    """A sparse hypergraph whose size and flavour are deterministic functions of idx (label kind idx % 3, explicit edge
+    IDs (idx // 3) % 2, dense variant idx % 4 == 3 for n <= 60, one big edge idx % 3 == 0); planted in every case:
+    isolated nodes, a long path, triangles (3-edge / three 2-edges / nested), wedge+triangle nodes (0 < cc < 1), a hub,
+    singletons, a multi-edge, many small components.  Returns (H, description, planted counts)."""
+    n = SCALE_SIZES[idx % len(SCALE_SIZES)]
+    lk = ("int", "gap", "str")[idx % 3]
+    labels = list(range(n)) if lk == "int" else (rng.sample(range(-n, 6 * n), n) if lk == "gap" else [f"v{i}" for i in range(n)])
+    rng.shuffle(labels)
+    free = labels[:]
+    edges = []
+    planted = {"triangles": 0, "wedges": 0, "path-nodes": 0, "hub-degree": 0, "isolated": 0}
+
+    def take(k):
+        if len(free) < k:
+            return None
+        out = free[:k]
+        del free[:k]
+        return out
+
+    iso = take(max(1, n // 20)) or []
+    planted["isolated"] = len(iso)
+    path = take(max(4, min(40, n // 5))) or []
+    i = 0
+    while i < len(path) - 1:
+        w = 3 if rng.random() < 0.25 and i + 2 < len(path) else 2
+        edges.append(path[i:i + w])
+        i += w - 1
+    planted["path-nodes"] = len(path)
+    for t in range(max(1, n // 30)):
+        tri = take(3)
+        if not tri:
+            break
+        form = t % 3
+        if form == 0:
+            edges.append(tri)
+        elif form == 1:
+            edges += [[tri[0], tri[1]], [tri[1], tri[2]], [tri[0], tri[2]]]
+        else:
+            edges += [tri, [tri[0], tri[2]]]
+        planted["triangles"] += 1
+    for _ in range(max(1, n // 40)):
+        wd = take(4)
+        if not wd:
+            break
+        edges += [[wd[0], wd[1], wd[2]], [wd[0], wd[3]]]  # cc(wd[0]) = 1/3
+        planted["wedges"] += 1
+    rest = free[:]
+    hub = take(1)
+    if hub and len(rest) > 3:
+        deg = min(30, max(3, n // 8), len(rest) - 1)
+        for x in rng.sample([r for r in rest if r != hub[0]], deg):
+            edges.append([hub[0], x])
+        planted["hub-degree"] = deg
+    dense = n <= 60 and idx % 4 == 3
+    if len(rest) >= 2:
+        m_r = min(int(len(rest) * (1.5 if dense else 0.45)), MAX_SCALE_EDGES - len(edges) - 4)
+        for _ in range(max(0, m_r)):
+            edges.append(ops.rand_members(rng, rest, 2, 4))
+        if idx % 3 == 0:
+            edges.append(rng.sample(rest, min(len(rest), min(30, max(6, n // 6)))))
+    for x in rng.sample(labels, 2):
+        edges.append([x])
+    edges.append(list(rng.choice(edges)))  # a multi-edge
+    rng.shuffle(edges)
+    explicit = (idx // 3) % 2 == 1
+    H = xgi.Hypergraph()
+    H.add_nodes_from(labels)
+    if explicit:
+        ids = [f"e{j}" for j in range(len(edges))] if lk == "str" else rng.sample(range(0, 5 * len(edges)), len(edges))
+        for e, j in zip(edges, ids):
+            H.add_edge(list(e), idx=j)
+    else:
+        for e in edges:
+            H.add_edge(list(e))
+    desc = f"n={n} m={len(edges)} labels={lk} ids={'explicit' if explicit else 'auto'} dense={dense} planted={planted}"
+    return H, desc, planted
+
+
+def build_scaled_di(rng, idx):
+    n = SCALE_SIZES[idx % len(SCALE_SIZES)]
+    labels = list(range(n)) if idx % 2 else [f"v{i}" for i in range(n)]
+    rng.shuffle(labels)
+    D = xgi.DiHypergraph()
+    D.add_nodes_from(labels)
+    for _ in range(min(300, n // 2 + 3)):
+        D.add_edge((ops.rand_members(rng, labels, 0, 3), ops.rand_members(rng, labels, 0, 3)))
+    return D
+
+
+def run_scale(mon, idx, rng):
+    H, desc, planted = build_scaled(rng, idx)
+    how = (f"# {desc}\n# rebuild: from xgimon.checks import c14; from xgimon.cli import case_rng; "
+           f"H = c14.build_scaled(case_rng('C14', {mon.seed}, 'scale', {idx}), {idx})[0]   (or: VERIF_SEED={mon.seed} ./check C14 --case scale:{idx})")
+    if snap.inv(H):
+        mon.note("discarded-invalid-input")
+        return
+    n = H.num_nodes
+    cls = "n>250" if n > 250 else ("61<=n<=250" if n > SAMPLED_ABOVE else "11<=n<=60")
+    mon.note(f"scale:{cls}")
+    mon.note(f"scale:{cls}:planted-triangles", planted["triangles"])
+    mon.note(f"scale:{cls}:planted-wedges", planted["wedges"])
+    mon.note(f"scale:{cls}:edges", H.num_edges)
+    evaluate(mon, H, how, rng)
+    D = build_scaled_di(rng, idx)
+    if not snap.inv(D):
+        evaluate(mon, D, how.replace("build_scaled(", "build_scaled_di(").replace(")[0]", ")") + "  # built after H from the same rng", rng)
+    mon.sample(how)
+
+
 def run_case(mon, kind, idx, rng):
+    if kind == "scale":
+        return run_scale(mon, idx, rng)
     if kind == "sequence":
         return run_sequence(mon, rng)
     net, how, _ = (build_dihypergraph if kind == "directed" else build_hypergraph)(rng, mon)
